@@ -117,6 +117,7 @@ class Interp:
         self.chan_ids = 0
         self.next_aid = 1
         self.live = set()
+        self.sites = {}
         _natives.install(self)
 
     # ------------------------------------------------------------------ utilities
@@ -127,6 +128,19 @@ class Interp:
 
     def label(self, name):
         self.res.labels.add(name)
+
+    def note_site(self, node, obj):
+        """Which receiver classes reach a property / invoke site (inline cache histories)."""
+        c = self.class_of(obj)
+        seen = self.sites.setdefault(id(node), [])
+        if not seen or seen[-1] is not c:
+            if c in seen:
+                self.res.labels.add("site_class_returns")
+            seen.append(c)
+            if len(set(id(x) for x in seen)) >= 2:
+                self.res.labels.add("polymorphic_site")
+                if len(set(x.name for x in seen)) < len(set(id(x) for x in seen)):
+                    self.res.labels.add("site_same_name_distinct_class")
 
     def count(self, name, n=1):
         self.res.counts[name] = self.res.counts.get(name, 0) + n
@@ -556,6 +570,7 @@ class Interp:
             return self.eval_call(e, env)
         if k == "prop":
             obj = self.eval(e[1], env)
+            self.note_site(e, obj)
             return self.get_prop(obj, e[2])
         if k == "index":
             obj = self.eval(e[1], env)
@@ -711,6 +726,7 @@ class Interp:
             return v
         if t[0] == "prop":
             obj = self.eval(t[1], env)
+            self.note_site(t, obj)
             v = self.eval(e[2], env)
             self.set_prop(obj, t[2], v)
             return v
@@ -841,6 +857,7 @@ class Interp:
         callee = e[1]
         if callee[0] == "prop":
             obj = self.eval(callee[1], env)
+            self.note_site(callee, obj)
             args = [self.eval(a, env) for a in e[2]]
             if len(e[2]) == 0:
                 # GetPropByName + Call(0) is fused into Invoke
